@@ -3,7 +3,8 @@ import Rangers.Model.BlockExec
 namespace Rangers.Proofs.BlockExec
 open Rangers Rangers.Model.BlockExec
 
-theorem St.ext' {a b : St} (h1 : a.bal = b.bal) (h2 : a.nonce = b.nonce) (h3 : a.escrow = b.escrow) : a = b := by
+theorem St.ext' {a b : St} (h1 : a.bal = b.bal) (h2 : a.nonce = b.nonce) (h3 : a.escrow = b.escrow)
+    (h4 : a.miners = b.miners := by rfl) (h5 : a.diff = b.diff := by rfl) (h6 : a.working = b.working := by rfl) : a = b := by
   cases a; cases b; simp_all
 
 /-- escrow additions commute (any heights, any ids) -/
@@ -42,6 +43,9 @@ theorem cmStep_comm (h : Nat) (s : St) (e1 e2 : Addr × Nat) :
   · funext h' k
     simp only [cmStep, clearEscrow, addBal]
     grind
+  · rfl
+  · rfl
+  · rfl
 
 theorem transfer2_comm (s : St) (src a b : Addr) (v w : Nat) :
     subBal (addBal (subBal (addBal s a v) src v) b w) src w
